@@ -93,7 +93,7 @@ func parkedBeforeSuccessor(in *models.Input) bool {
 func init() {
 	register(&Prop{
 		ID:   "C05",
-		Rule: "rule sets of 1-8 observer rules (ties), model in {mix, inverse-mix, NSortMConc, NConcMSort, NConcMConc and their selected variants, pool *SpecifiedEM with em 3/4} on engine and pool, valid and invalid N/M splits, random failing subset, both flag values, and a schedule: in ~75% of cases 1-2 rules that the reference model places before a barrier are parked on a Hold gate and released only after the event log went quiet; oracle = reference stage predicate (exactly-once, window by salience multiset, barrier by event sequence numbers, error policy). Non-trivial: a rule was parked and another rule started after its release, or stop-on-error with a failing rule; distinct by case hash",
+		Rule: "rule sets of 1-8 observer rules (ties), model in {mix, inverse-mix, NSortMConc, NConcMSort, NConcMConc and their selected variants, pool *SpecifiedEM with em 3/4} on engine and pool, valid and invalid N/M splits, random failing subset (failing statement drawn from 12 forms as in C04), both flag values, and a schedule: in ~75% of cases 1-2 rules that the reference model places before a barrier are parked on a Hold gate and released only after the event log went quiet; oracle = reference stage predicate (exactly-once, window by salience multiset, barrier by event sequence numbers, error policy). Non-trivial: a rule was parked and another rule started after its release, or stop-on-error with a failing rule; distinct by case hash",
 		New:  func() interface{} { return &SchedCase{} },
 		Gen: func(t *rapid.T) interface{} {
 			c := &SchedCase{QuiesMs: quiesMs()}
